@@ -121,19 +121,32 @@ def maximiser_is_unique(specs, weights, rooted, kind):
     if not specs or tot <= 0:
         return False
     per_tree = [ref.nontrivial_splits(s, rooted) for s in specs]
-    count = {}
-    for sp, w in zip(per_tree, weights):
-        for x in sp:
-            count[x] = count.get(x, 0.0) + w
-    scores = {}
-    for sp in per_tree:
-        f = [count[x] / tot for x in sp]
-        scores[sp] = sum(math.log(v) for v in f if v > 0) if kind == "mcct" else sum(f)
-    best = max(scores.values())
-    tops = [sp for sp, v in scores.items() if close(v, best) or abs(v - best) < 1e-6]
-    if len(tops) != 1:
+    ntax = len(ref.leaf_taxa(specs[0]))
+    # Which splits enter a tree's score is the library's convention, not part of the statement: it leaves out what
+    # Bipartition.is_trivial() calls trivial, and that (unrooted) notion also covers a ROOTED clade of all taxa but one.
+    # The maximiser must be unique under both readings before the same summary tree is demanded (a tie under the
+    # library's reading with a unique maximiser under the other one was a false alarm of an earlier version).
+    conventions = [lambda x: True]
+    if rooted:
+        conventions.append(lambda x: len(x) < ntax - 1)
+    verdicts = []
+    for keep in conventions:
+        count = {}
+        for sp, w in zip(per_tree, weights):
+            for x in sp:
+                count[x] = count.get(x, 0.0) + w
+        scores = {}
+        for sp in per_tree:
+            f = [count[x] / tot for x in sp if keep(x)]
+            scores[sp] = sum(math.log(v) for v in f if v > 0) if kind == "mcct" else sum(f)
+        best = max(scores.values())
+        tops = [sp for sp, v in scores.items() if close(v, best) or abs(v - best) < 1e-6]
+        if len(tops) != 1:
+            return 0
+        verdicts.append(tops[0])
+    if any(v != verdicts[0] for v in verdicts):
         return 0
-    return sum(1 for sp in per_tree if sp == tops[0])      # how many sampled trees carry that topology
+    return sum(1 for sp in per_tree if sp == verdicts[0])      # how many sampled trees carry that topology
 
 
 # ------------------------------------------------------------------------------------------------ schedules
